@@ -51,8 +51,10 @@ class SimDB:
         # fault directives (armed for one call by the world, one shot)
         self._fail_set_at = None  # (n, applied)
         self._fail_del_at = None
+        self._fail_get_at = None  # (n, kind): the n-th read (item lookup or `in`) of the call fails
         self._call_sets = 0
         self._call_dels = 0
+        self._call_gets = 0
         self.fired = None
         self.dels_before_fire = 0
         self._withheld = None  # set of keys that read as absent for one call
@@ -69,6 +71,8 @@ class SimDB:
             self._cb("get", key)
         if self.readlog is not None:
             self.readlog.append(key)
+        if self._fail_get_at is not None:
+            self._read_fault()
         wh = self._withheld
         if wh is not None and key in wh and key in self._d:
             self.withheld_hits.append(key)
@@ -79,10 +83,22 @@ class SimDB:
         self.n_in += 1
         if self.on_access is not None:
             self._cb("in", key)
+        if self._fail_get_at is not None:
+            self._read_fault()
         wh = self._withheld
         if wh is not None and key in wh:
             return False
         return key in self._d
+
+    def _read_fault(self):
+        """An I/O error on a read: not a KeyError (the entry may well be there)."""
+        self._call_gets += 1
+        fa = self._fail_get_at
+        if self._call_gets == fa[0]:
+            self._fail_get_at = None
+            self.fired = ("get", fa[0], False)
+            kind = FAILURE_KINDS[fa[1]]
+            raise kind(f"injected failure of read #{fa[0]}")
 
     def __setitem__(self, key, value):
         self.n_set += 1
@@ -163,10 +179,12 @@ class SimDB:
         finally:
             self._in_cb = False
 
-    def arm(self, fail_set=None, fail_del=None, withhold=None):
+    def arm(self, fail_set=None, fail_del=None, withhold=None, fail_get=None):
         """Arm fault directives for the next library call and reset the per-call counters."""
         self._fail_set_at = fail_set
         self._fail_del_at = fail_del
+        self._fail_get_at = fail_get
+        self._call_gets = 0
         self._withheld = withhold if withhold else None
         self.withheld_hits = []
         self._call_sets = 0
@@ -177,6 +195,7 @@ class SimDB:
         sets, dels = self._call_sets, self._call_dels
         self._fail_set_at = None
         self._fail_del_at = None
+        self._fail_get_at = None
         self._withheld = None
         return sets, dels
 
